@@ -64,7 +64,7 @@ def run(ck, F, E):
                        "%s applies %s to ProgramLines.numbered_lines (a HashMap): its iteration order is arbitrary, "
                        "so listing / DATA order / execution order would no longer be by line number"
                        % (body.path, c.callee), c.span, nontrivial=False)
-    ck.floor("C04.uses of the line map", n_map_uses, 6)
+    ck.floor("C04.uses of the line map", n_map_uses, 4)
     for fn, what in (("ProgramLines::list_tokens", "iter"), ("ProgramLines::data_iterator", "iter"),
                      ("ProgramLines::first", "first"), ("ProgramLines::after", "range")):
         b = get_fn(ck, F, fn)
